@@ -73,7 +73,8 @@ pub fn plan_attacker(w: &World, knobs: &Knobs, actor: &mut Actor, l: &Ledger) ->
     let small = 1 + rng.below(1_000_000) as u128;
     // an honest instruction of this actor to start from
     let honest = |rng: &mut Rng| -> (Ix, &'static str) {
-        match rng.below(6) {
+        match rng.below(7) {
+            6 => (ix::update_fees_and_rewards(&pi.keys.whirlpool, &pk.position, &la.ta_lower, &la.ta_upper), "update_fees_and_rewards"),
             0 if v1_ok => (ix::increase_liquidity(&la, small, u64::MAX, u64::MAX), "increase_liquidity"),
             0 | 1 => (ix::increase_liquidity_v2(&la, small, u64::MAX, u64::MAX), "increase_liquidity_v2"),
             2 if v1_ok => (ix::decrease_liquidity(&la, (p.liquidity / 3).max(1), 0, 0), "decrease_liquidity"),
